@@ -14,6 +14,7 @@ pub struct PanicInfo {
 
 thread_local! {
     static LAST_PANIC: RefCell<Option<PanicInfo>> = const { RefCell::new(None) };
+    static IN_GUARD: Cell<u32> = const { Cell::new(0) };
     static ALLOC_BYTES: Cell<u64> = const { Cell::new(0) };
     static ALLOC_CALLS: Cell<u64> = const { Cell::new(0) };
 }
@@ -42,6 +43,10 @@ pub fn install_panic_hook() {
             if head.len() < msg.len() {
                 head.push('…');
             }
+            // a panic outside `guard` is a bug of the harness itself: say so
+            if IN_GUARD.with(|g| g.get()) == 0 {
+                eprintln!("MACHINERY PANIC at {site}: {head}");
+            }
             LAST_PANIC.with(|p| *p.borrow_mut() = Some(PanicInfo { site, msg: head }));
         }));
     });
@@ -51,7 +56,10 @@ pub fn install_panic_hook() {
 pub fn guard<T>(f: impl FnOnce() -> T) -> Result<T, PanicInfo> {
     install_panic_hook();
     LAST_PANIC.with(|p| *p.borrow_mut() = None);
-    match catch_unwind(AssertUnwindSafe(f)) {
+    IN_GUARD.with(|g| g.set(g.get() + 1));
+    let r = catch_unwind(AssertUnwindSafe(f));
+    IN_GUARD.with(|g| g.set(g.get() - 1));
+    match r {
         Ok(v) => Ok(v),
         Err(_) => Err(LAST_PANIC
             .with(|p| p.borrow_mut().take())
